@@ -60,6 +60,23 @@ Definition outside_C17 (c : ecase) (wm : world) : bool :=
 Definition spec_C17 (c : ecase) (wm : world) (h : list (option string * wview)) : bool :=
   outside_C17 c wm || frames_ok empty_view h.
 
+(** the hypothesis of the frame theorem for class statements ([OwnLists] in Proofs/ElabClassFrame.v),
+    evaluated on a world: every class created through the meta-class shows only lists of its own *)
+Definition own_lists_ok (w : world) (k : nat) : bool :=
+  forallb (fun which =>
+             match class_inv w k which with
+             | None => true
+             | Some r => match get_class w k with
+                         | Some c => match own_inv c which with Some r' => Nat.eqb r r' | None => false end
+                         | None => false
+                         end
+             end) [LInv; LCall; LSet].
+Definition own_lists_everywhere (w : world) : bool :=
+  forallb (fun k => match get_class w k with
+                    | Some c => negb (co_meta c) || is_nil (co_mro c) || own_lists_ok w k
+                    | None => true
+                    end) (seq 0 (List.length (w_classes w))).
+
 (** ** declarations of a history, per class index (a failed class statement keeps its slot) *)
 Fixpoint class_decls (ops : list defop) : list cdecl :=
   match ops with
